@@ -96,4 +96,9 @@ TEXT = {
   "level_text": "Generated concurrent programs (2-10 goroutines x 1-12 documented-safe operations on 1-2 shared sessions: Call, AsyncCall, Push in both directions, handler replies, SetID, swap store/load/range, age getters, Health, CloseNotify, GetSession, RangeSession, CountSession, Close) run in a binary built with -race, once with logging off and once with run-logging at INFO; the driver parses every detector report and reports a violation for each unordered pair of framework functions not listed as a known finding.",
   "level_note": "Only executed interleavings are observed. The harness itself must be race-free: reports touching harness frames or non-concurrency-safe global setters are infrastructure errors, not findings.",
  },
+ "C13": {
+  "technique": "property-based fault sequences against a harness-owned listener over loopback TCP (rapid)",
+  "level_text": "A client session created by Dial with redial budget 1/3/unlimited faces a harness-owned listener that can kill every accepted connection and refuse new ones; generated fault sequences (killed idle, killed while a call awaits its gated reply, calls and pushes issued while the server is away, short outage, budget-exhausting outage, long outage with unlimited budget, concurrent call bursts), optionally with the secure plugin on both peers; in-flight calls complete with a connection-class status or their genuine reply, after re-establishment calls succeed on the same Session value with the user-assigned id kept and indexed, after exhaustion the close notification fires, the index forgets the session and pending/later calls fail with a connection error.",
+  "level_note": "Real sockets: timing is not owned by the harness; liveness is bounded-time evidence.",
+ },
 }
